@@ -26,6 +26,12 @@ C['C11'] = dict(engine='Spectra', ref='4/C11', technique='TLA+ spec (Spectra/Spe
 C['C05'] = dict(engine='Extrema', ref='4/C05', technique='TLA+ spec (Extrema/ExtremaDef: strict extrema, parabolic vertices as exact rationals, numpy reflect-odd/edge padding incl. the repeat loop) model-checked with TLC; every enumerated signal pushed through get_padded_extrema / interp_envelope and validated against the spec by TLC',
    text='TLC checks exactness of detected extrema, the padding-shape theorems (strictly increasing, interior untouched, added points strictly outside, coverage of the record) and reversal / sign / scale equivariance of the specified rule on EVERY sequence of length 3..9 (quick: 7) over a 3-level alphabet x pad widths 0..5 x 3 modes x parabolic on/off; the harness pushes the same domain through get_padded_extrema and interp_envelope(ret_extrema=True) for splrep / pchip / mono_pchip x upper / lower / combined and TLC validates locations (exact, 1/24 sample), magnitudes (exact, 1/96), envelope length, sampling grid and knot values; random float signals are validated with harness-found peak positions.',
    note=TRUST + '; the sampling-grid classification rebuilds the scipy interpolant from the extrema the routine itself returned and compares at 1e-9; equivariance of scipy interpolants is trusted')
+C['C04'] = dict(engine='SiftLoop', ref='4/C04', technique='TLA+ spec SiftLoop (token-map iterate, one action per loop step) model-checked with TLC incl. liveness; every TLC behaviour replayed through the unmodified get_next_imf with scripted kernels; recorded real executions validated against SiftLoopTrace by TLC',
+   text='TLC checks the iterate relation, return rule, fixed-count, first-hit, iteration bound, never-unconverged and raise-only-at-limit invariants plus termination (liveness under weak fairness, no state constraint) for 3 stop rules x max_iters 1..5/6 x 3 step sizes x energy on/off over ALL sequences of envelope-missing / stop-fires choices; every maximal behaviour is replayed through the real get_next_imf with the numeric kernels replaced by scripted stubs (exact iteration count, exception, flag, returned array = token map on the stub arrays); thousands of real extractions (7 signal families, thresholds, steps, max_iters up to 1000, 3 interpolants, padding) are recorded event by event and TLC validates each trace against the specification, with the stop decision recomputed independently and the iterate relation / returned value checked bit-for-bit.',
+   note=TRUST + '; stop decisions within 1e-9 (relative) of their threshold are excluded from the independent-decision clause and counted')
+C['C01'] = dict(engine='Sift', ref='4/C01', technique='TLA+ spec Sift (outer loop over token maps, environment fixed at Init) model-checked with TLC incl. liveness; every behaviour replayed through the unmodified sift with scripted kernels; recorded real sifts validated against SiftTrace by TLC',
+   text='TLC checks RunningResidual, Complete, ResidualIsInput, Peel, Prefix and termination of the outer loop for all extraction-outcome / small-IMF environments up to 4-5 layers, and that the historical mid-sift-extrema-loss deviation violates Complete; every behaviour is replayed through the real sift with scripted kernels (incl. the path on which extrema vanish mid-extraction) and the returned columns must equal the token maps; real sifts over the quantifier grid are recorded (per extraction: flag, kind, small, input == running residual bit-for-bit; at the end: completeness within rounding, strict interior extrema of the last column) and TLC validates every trace.',
+   note=TRUST + '; termination of the outer loop on real signals is observed under a watchdog, in the model it is an environment assumption (some layer lacks extrema)')
 NA = {}
 checks = []
 for i in ids:
